@@ -348,6 +348,23 @@ pub fn special_text(rng: &mut Rng, alpha: usize) -> String {
     world::gen_text(rng, alpha, 3)
 }
 
+/// a text of up to `max_chars` characters (Excel's limits count characters: 32 for titles, 255 for
+/// messages), sometimes long and multi-byte
+fn sized_text(rng: &mut Rng, alpha: usize, max_chars: usize) -> String {
+    if !rng.chance(1, 4) {
+        return special_text(rng, alpha);
+    }
+    let pool = ["日", "本", "é", "ß", "a", "Z", "😀", " ", "&"];
+    let n = max_chars / 2 + rng.usize(max_chars / 2 + 1);
+    let mut s = String::new();
+    let mut chars = 0;
+    while chars < n {
+        s.push_str(pool[rng.usize(pool.len())]);
+        chars += 1;
+    }
+    s.trim().to_string()
+}
+
 pub fn gen_aop(rng: &mut Rng, sheets: usize, alpha: usize, tag: &str, w: &[u32; 11]) -> AOp {
     let sheet = rng.usize(sheets.max(1));
     let r = 1 + rng.below(30);
@@ -364,10 +381,10 @@ pub fn gen_aop(rng: &mut Rng, sheets: usize, alpha: usize, tag: &str, w: &[u32; 
             op: rng.below(8) as u8,
             f1: format!("{}", rng.below(100)),
             f2: if rng.chance(1, 2) { format!("{}", 100 + rng.below(100)) } else { String::new() },
-            prompt_title: if rng.chance(1, 2) { format!("{}pt{}", tag, special_text(rng, alpha)) } else { String::new() },
-            prompt: if rng.chance(1, 2) { format!("{}p{}", tag, special_text(rng, alpha)) } else { String::new() },
-            error_title: if rng.chance(1, 3) { format!("{}et{}", tag, special_text(rng, alpha)) } else { String::new() },
-            error: if rng.chance(1, 3) { format!("{}e{}", tag, special_text(rng, alpha)) } else { String::new() },
+            prompt_title: if rng.chance(1, 2) { format!("{}pt{}", tag, sized_text(rng, alpha, 26)) } else { String::new() },
+            prompt: if rng.chance(1, 2) { format!("{}p{}", tag, sized_text(rng, alpha, 248)) } else { String::new() },
+            error_title: if rng.chance(1, 3) { format!("{}et{}", tag, sized_text(rng, alpha, 26)) } else { String::new() },
+            error: if rng.chance(1, 3) { format!("{}e{}", tag, sized_text(rng, alpha, 248)) } else { String::new() },
             allow_blank: rng.chance(1, 2),
         },
         1 => AOp::CondFmt { sheet, sqref: sq, kind: rng.below(4) as u8, op: rng.below(6) as u8, priority: 1 + rng.below(20) as i32, formula: format!("{}", rng.below(50)), text: format!("{}t", tag.replace(|c: char| !c.is_ascii_alphanumeric(), "")), bold: rng.chance(1, 2) },
